@@ -1,11 +1,13 @@
 #!/bin/sh
-# usage: tools/try_seed.sh <patch.diff> <tier> <ID> [<ID> ...]
+# usage: tools/try_seed.sh <ABSOLUTE path of patch.diff> <tier> <ID> [<ID> ...]
 # applies the patch to /repo, runs the given checks, restores /repo. Prints one line per check.
 patch=$1; tier=$2; shift; shift
 cd /repo || exit 2
 if [ -n "$(git status --porcelain)" ]; then echo "REPO NOT CLEAN"; git status --short; exit 2; fi
 git apply "$patch" || { echo "PATCH DOES NOT APPLY"; exit 2; }
 cd /verif
+# evidence files must only ever come from runs on the unchanged tree: save them, restore them afterwards
+rm -rf work/evidence_saved && mkdir -p work && cp -r evidence work/evidence_saved
 for id in "$@"; do
   s=$(date +%s)
   ./check $id --tier $tier > work/seed_$id.log 2>&1
@@ -13,4 +15,5 @@ for id in "$@"; do
   e=$(date +%s)
   echo "$id rc=$rc $((e-s))s violations=$(grep -c '^VIOLATION' work/seed_$id.log) $(grep -m1 -A1 '^VIOLATION' work/seed_$id.log | tail -1 | cut -c1-220) $(grep '^TOOL-ERROR' work/seed_$id.log | cut -c1-200)"
 done
+cp work/evidence_saved/*.json evidence/ && rm -rf work/evidence_saved
 cd /repo && git checkout -- . && git clean -fdq crates && git status --short
